@@ -25,10 +25,12 @@ func runC09(c *Ctx) {
 	c.rule("source-error-delivery", "a source-reported error becomes an error event exactly when !(skipVerify && CallGlobalCallbacksAfterVerificationEnabled) (truth table)", 1)
 	c.rule("error-cb-unconditional", "the callback loop calls OnWatchedError for every error event when it is non-nil, and OnNewConfig exactly when non-nil and not suppressed", 2)
 
+	c.rule("ez-suppression", "the ez entry points request delayed verification and suppression of global callbacks unconditionally (so that the precise-suppression clause is what ez users get)", 2)
 	k := loadCore(c)
 	if !k.ok {
 		return
 	}
+	c18ParamsOnly(c, "ez-suppression")
 	w := c.W
 	m := k.monitor
 	c.analysed(relName(m))
